@@ -41,8 +41,9 @@ var tagPieces = []string{
 
 var fieldNames = []string{"A", "B", "C", "D", "E", "F", "Name", "ID", "CreatedAt", "X1", "Items", "Meta", "Spec", "Status", "Err", "Val"}
 
-var originPkgs = []string{"origin", "origin", "origin", "origin", "origin", "origin", "origin", "origin", "src", "model", "o", "i", "in", "out", "key", "val"}
-var libPkgs = []string{"lib", "lib", "lib", "lib", "lib", "lib", "util", "o", "i", "in", "out", "key", "val"}
+var originPkgs = []string{"origin", "origin", "origin", "origin", "origin", "origin", "origin", "origin", "origin", "origin", "origin", "origin",
+	"src", "model", "src", "model", "key", "val", "o", "i", "in", "out"}
+var libPkgs = []string{"lib", "lib", "lib", "lib", "lib", "lib", "lib", "lib", "lib", "lib", "lib", "lib", "util", "util", "util", "key", "val", "o", "i", "in", "out"}
 
 var nonStructs = []string{"int", "[]string", "map[string]Inner", "*Inner", "func()", "interface{ M() }", "string", "[2]int", "chan int"}
 var rawRHS = []string{"int", "[]string", "map[string]int", "*origin.Inner", "func()", "origin.Kind", "interface{}", "[]origin.Inner", "chan int", "string", "origin.Iface", "error", "any"}
@@ -394,7 +395,7 @@ func corners() []Input {
 }
 
 func (prop) Generate(r *core.RNG, tier string) []json.RawMessage {
-	n := 60
+	n := 80
 	if tier == "thorough" {
 		n = 900
 	}
@@ -404,9 +405,9 @@ func (prop) Generate(r *core.RNG, tier string) []json.RawMessage {
 	}
 	for i := 0; i < n; i++ {
 		switch k := r.Intn(100); {
-		case k < 12:
+		case k < 10:
 			out = append(out, marshal(genErrorInput(r)))
-		case k < 22:
+		case k < 24:
 			out = append(out, marshal(genNotesInput(r)))
 		default:
 			out = append(out, marshal(genInput(r)))
